@@ -29,7 +29,7 @@ CHECKS = {
         text="Every score vector up to length 6 (quick) / 7 (thorough) as a weak ordering - i.e. every tie pattern and "
              "every input order - with every label vector and both directions is executed on mokapot.qvalues.tdc and "
              "compared with an exact rational evaluation of the defining formula; dtypes, monotone rescalings and "
-             "training labels at every distinguishing threshold are covered for smaller n. Small-scope exhaustive: "
+             "training labels at every distinguishing threshold are covered for smaller n (rescalings include maps that compress the scores below float32 resolution). Small-scope exhaustive: "
              "the formula's failure modes (tie handling, +1, un-sorting, direction) all manifest at n<=4.",
         note="Trusts numpy float division for the reference's final rational->float conversion; lengths above the bound "
              "and non-finite scores are not covered."),
@@ -56,7 +56,7 @@ CHECKS.update({
                   "tie-sound selection reference and the C01 rational q-value reference",
         text="Every canonical core table with n<=4 (quick) / n<=5 (thorough) rows over 3 spectra x 4 peptides, in all "
              "configurations within the deviation bound (de-duplication, roll-up, decoys, 1-3 collections, prefixes, "
-             "text/Parquet, extra level columns, file order) plus a tie family, is pushed through assign_confidence; "
+             "text/Parquet, extra level columns - also with identifier strings coinciding across levels -, file order, streaming chunk size) plus a tie family, is pushed through assign_confidence with 13-digit scores; "
              "result files are validated level by level (one maximal row per spectrum/entity among the retained PSMs, "
              "row integrity, order, target/decoy split, q-values by the C01 formula on exactly the retained rows) and "
              "the stand-alone brew_rollup tool is run on the written files.",
@@ -66,7 +66,7 @@ CHECKS.update({
         technique="bounded exhaustive enumeration of FASTA inputs (all sequences over {A,C,K,R} to length 7/9, pairs, "
                   "multi-file, wrapped records) x modes x RNG seeds vs structural invariants and independent read-back",
         text="make_decoys is run on every sequence up to the length bound in every mode (reverse, shuffle with global "
-             "seeds 0..7, concatenate on/off), on pairs, several files, wrapped records and header variants; name, "
+             "seeds 0..7, concatenate on/off), on pairs, several files, repeated accessions, wrapped records, header variants and call histories in one process (shuffle then reverse and vice versa); name, "
              "length, residue multiset, fixed peptide termini, identical cleavage sites, exact interior reversal, "
              "target-first order and round trip through an independent FASTA reader and mokapot's own are checked.",
         note="An entry is read as (name, sequence); header descriptions and line width are not part of the statement."),
@@ -89,7 +89,8 @@ CHECKS.update({
              "of the same rows are recovered from the recording estimator; with t (lowest accepted target by the C01 "
              "reference) and d (decoy median) the scores must equal (r - t)/(t - d) exactly (1e-9): strictly increasing "
              "affine, t -> 0, d -> -1. A fold without an accepted target must make brew raise its explicit error; the "
-             "impossible-FDR family checks that error path.",
+             "impossible-FDR family checks that error path; dyadic FDRs put q-values exactly on the threshold; an estimator "
+             "with both decision_function and predict_proba must be calibrated as well.",
         note="Folds with t <= d are outside the statement and skipped (counted in the evidence)."),
     "C12": dict(
         level="exploration", engine="E1-enum", design="DESIGN.md 4/C12",
@@ -99,7 +100,8 @@ CHECKS.update({
         text="Model.fit is run on every row order of small datasets with shuffling on and off; for every logged fit call "
              "positives must be exactly the targets accepted at train_fdr under the preceding scores (C01 reference), "
              "negatives exactly the decoys, rows and labels of the same PSM; learned weights and predictions must equal "
-             "those of the stored order (1e-9); prediction with permuted feature columns and after save/load must agree.",
+             "those of the stored order (1e-9); a hyper-parameter search wrapper must receive aligned rows/labels too; "
+             "prediction with permuted feature columns and after save/load must agree.",
         note="The estimator is order independent by construction; training refusals are compared differentially with the "
              "stored-order run."),
     "C17": dict(
@@ -129,9 +131,10 @@ CHECKS.update({
         text="brew -> assign_confidence on three designed tables (duplicates adjacent / far apart / exact duplicate rows) "
              "and a two-file joint run is repeated under every single value 1..n+1 of each streaming chunk constant, "
              "every Parquet row-group size, 1-16 workers, all pairs (quick) / triples (thorough) over a reduced value "
-             "set, with de-duplication on and off; scores and every result file must equal the reference execution; "
-             "read_pin likewise over its column/row scan chunks; each pool invocation is explored under the baton "
-             "scheduler (<=1 / <=2 preemptions) and must reproduce the sequential outcome.",
+             "set, with de-duplication on and off and with learners with and without decision function; scores, training-row order and every result file must equal the reference execution; "
+             "read_pin likewise over its column/row scan chunks; pool invocations of read_pin, of a two-file brew (per-file "
+             "concat pool; joblib return_as modelled) and of assign_confidence (also with cross-chunk score ties) are "
+             "explored under the baton scheduler (<=1 / <=2 preemptions) and must reproduce the sequential outcome.",
         note="Rows with exactly equal scores may swap places; PEPs across text/Parquet compared at 5e-2 (qvality "
              "amplifies last-bit score differences); third-party code atomic between scheduling points."),
 })
@@ -144,8 +147,9 @@ CHECKS.update({
                   "sequences x protocol, vs a list-of-tuples reference",
         text="Every reader kind (text, Parquet with every row-group size, in-memory, column-mapped, joined, computed) is "
              "read chunk-wise with every chunk size and every ordered column subset and compared with whole reading and "
-             "the reference rows (values, column order, continuing index); every writer kind/buffer size/buffer kind "
-             "is driven through every append sequence and the finalised file read back.",
+             "the reference rows (values, column order, continuing index); all requests of one (rows, kind) are issued against the same reader object; every writer kind/buffer "
+             "size/buffer kind is driven through every append sequence (records with per-row inferred dtypes included) and "
+             "the finalised file read back.",
         note="One fixed, clearly typed table per row count; chunk-wise CSV dtype ambiguity is outside the alphabet; the "
              "computed reader is driven with explicit column lists only."),
     "C14": dict(
@@ -155,7 +159,7 @@ CHECKS.update({
                   "with one adjacent inversion",
         text="utils.merge_sort (text and Parquet) and MergedTabularDataReader (read, chunked, row iterators of all three "
              "row types; descending and ascending) are run on every split of every small score multiset: every input "
-             "row must come out exactly once, unmodified, globally sorted, independent of chunk size and of how the "
+             "row (scores from {-1, 0, 1}) must come out exactly once, unmodified, globally sorted, independent of chunk size and of how the "
              "rows are split; an input with an inversion must be rejected or still yield a sorted result.",
         note="Tie order is free; reader chunk sizes run to the longest input + 1."),
 })
@@ -166,8 +170,9 @@ CHECKS.update({
         technique="exhaustive enumeration of the product datasets x label encodings x feature direction x scripted "
                   "estimators x format x override; accepted-count rule evaluated by the C01 reference on genuine labels",
         text="brew is run with estimators that learn, cannot learn, learn the inverse or degrade on unseen rows, for "
-             "every label encoding (1/-1, 1/0, bool), higher- and lower-is-better best features, text and Parquet, "
-             "override on/off; whenever model scores are returned they must accept at least as many genuine targets "
+             "every label encoding (1/-1, 1/0, bool), higher- and lower-is-better best features (also a weak feature pointing "
+             "the other way), text and Parquet, override on/off, evaluation FDR equal to or stricter than the training FDR; "
+             "each model's best-feature record is compared with reference counts on its own training rows; whenever model scores are returned they must accept at least as many genuine targets "
              "(C01 reference) as the best feature did in training, a fallback must return exactly that feature with "
              "its direction, and assign_confidence on the returned (scores, descs) must compete, order and compute "
              "q-values in the returned direction.",
@@ -183,8 +188,10 @@ CHECKS.update({
         text="Every write/append/unlink/move/open call of each run configuration is a crash point for five fault kinds "
              "(I/O error before/after, kill before/after with dead-mode cleanup, torn write); the resulting directory "
              "contents are de-duplicated states; in every state each configuration is run fault-free and must produce "
-             "byte-identical result files, leave no intermediate file of its own, and (CLI) leave the user's PIN equal "
-             "to the conversion of the original. Histories of 2 (quick) / 3 (thorough) earlier failed runs.",
+             "byte-identical result files, leave no intermediate file of its own (new or re-written), and (CLI) leave the "
+             "user's PIN equal to the conversion of the original. Transitions also include successful earlier runs (other "
+             "inputs/chunking/prefix, roll-up in place) and the user re-exporting an input; histories of 2 (quick) / 3 "
+             "(thorough) steps.",
         note="Crash granularity = intercepted calls; depth >1 is expanded from a capped number of states (reported in "
              "caps_hit); max_workers=1."),
 })
@@ -225,8 +232,8 @@ CHECKS.update({
         text="A complete analysis (brew -> read_fasta -> assign_confidence with proteins; also the CLI) is digested "
              "(score bytes, fold membership via recording estimator or SVM coefficients, every result file byte for "
              "byte, FASTA maps as sets) and the digest must be identical when the analysis is repeated in the same "
-             "process after other work, with another worker count, in fresh interpreters under each enumerated hash "
-             "seed, and the scores must be reproduced exactly when the returned models are fed back in any order.",
+             "process after other work, with a Proteins object shared with an earlier analysis, with another worker count, "
+             "in fresh interpreters under each enumerated hash seed (numeric and file-name-led spectrum keys), and the scores must be reproduced exactly when the returned models are fed back in any order.",
         note="Hash seeds are enumerated over 0..7 (0..3 quick), not all 2^32; one 128-PSM dataset with anagram peptides "
              "(so that random decoy matching has a choice)."),
 })
@@ -238,7 +245,7 @@ CHECKS.update({
                   "orders (12/50 block permutations) x all PEP and q-value algorithms; metamorphic alignment relation "
                   "f(x.pi) = f(x).pi plus range / monotonicity / tie clauses; end to end through assign_confidence",
         text="Every selectable PEP estimator (qvality, kde_nnls, hist_nnls) and q-value estimator (tdc, from_peps, "
-             "from_counts) is run on every score set of the grid in every enumerated input order: one finite value "
+             "from_counts) is run on every score set of the grid (incl. a shape with a low-scoring target group) in every enumerated input order: one finite value "
              "per PSM, PEPs in [0,1], never decreasing as the score worsens, equal on ties, and the i-th value belongs "
              "to the i-th PSM (permutation metamorphic relation); result files of assign_confidence must carry, for "
              "every row, the stand-alone PEP of that row's score.",
@@ -255,7 +262,8 @@ CHECKS.update({
              "record: one spectra row per input row in file order, targets exactly the rows labelled 1/true, spectrum "
              "key made of the available file/scan/time/mass columns, features exactly the non-reserved columns without "
              "missing values, nothing dropped; missing required columns and out-of-range labels must be rejected with "
-             "an error; every schedule of the column-scan pool within the preemption bound equals the sequential run.",
+             "an error; the same path rewritten with another table and parsed again must reflect the new file; every "
+             "schedule of the column-scan pool within the preemption bound equals the sequential run.",
         note="A Charge column may stay a feature (find_optional_column looks for 'charge_column'); accepted either way."),
 })
 
